@@ -254,7 +254,23 @@ def register(reg):
         o.open = True
         return o
 
-    START = '(old(token_reader._pos) if parser.span_start is None else parser.span_start)'
+    def p_attr(name, default):
+        def f(it, parser):
+            if isinstance(parser, AbsVal):
+                return parser.attrs.get(name, default)
+            if isinstance(parser, Obj):          # a real parser object built by the code under contract
+                cn = parser.cls.name
+                if name == 'kind':
+                    return {'LatexDelimitedGroupParser': 'group_parser', 'LatexMathParser': 'math_parser'}.get(cn, 'other_parser')
+                if name == 'may_eos':
+                    return cn not in ('LatexDelimitedGroupParser', 'LatexMathParser')
+                return default
+            raise EngineError('parse_content called with %r as parser' % (parser,))
+        return f
+    reg.spec('p_start')(p_attr('span_start', None))
+    reg.spec('p_kind')(p_attr('kind', 'other_parser'))
+    reg.spec('p_may_eos')(p_attr('may_eos', True))
+    START = '(old(token_reader._pos) if p_start(parser) is None else p_start(parser))'
     reg.add(Contract(
         W + '.parse_content',
         requires=[('reader-given-and-in-range',
@@ -267,16 +283,16 @@ def register(reg):
         ensures=[
             ('reader-stays-in-the-string', '0 <= token_reader._pos and token_reader._pos <= len(self.s)'),
             ('reader-never-moves-backwards', 'old(token_reader._pos) <= token_reader._pos'),
-            ('group-parser-always-yields-its-node', "implies(parser.kind == 'group_parser', result[0] is not None)"),
+            ('group-parser-always-yields-its-node', "implies(p_kind(parser) == 'group_parser', result[0] is not None)"),
             ('delimited-parsers-consume-their-opening-delimiter',
-             "implies(parser.kind == 'group_parser' or parser.kind == 'math_parser', %s < token_reader._pos)" % START),
+             "implies(p_kind(parser) == 'group_parser' or p_kind(parser) == 'math_parser', %s < token_reader._pos)" % START),
             ('node-lies-in-range', 'result[0] is None or (%s <= result[0].pos and result[0].pos <= result[0].pos_end '
                                    'and result[0].pos_end <= len(self.s))' % START),
             ('strict:node-spans-exactly-what-was-consumed',
              'implies(not self.tolerant_parsing and result[0] is not None, result[0].pos == %s and '
              'result[0].pos_end == token_reader._pos)' % START),
             ('strict:a-node-unless-the-parser-may-meet-end-of-stream',
-             'implies(not self.tolerant_parsing and not parser.may_eos, result[0] is not None)'),
+             'implies(not self.tolerant_parsing and not p_may_eos(parser), result[0] is not None)'),
         ],
         raises={EXC + 'LatexWalkerParseError': {
             'when': 'not self.tolerant_parsing', 'make': make_parse_error,
